@@ -21,7 +21,8 @@ chk.extra['rule'] = ('toy source/target force fields (1-3 residue types; one-to-
                      'permuted keys; shuffled node order; chains); a case is non-trivial if it has >= 2 placements and '
                      '>= 1 bond between placements, or an overlap / unmapped / spawned feature; distinct = distinct '
                      'protocol line')
-chk.lean(['VermouthProps.C01'], 'driver_c01')
+chk.lean(['VermouthProps.C01', 'VermouthProps.C01_Attr', 'VermouthProps.C01_ModAttr', 'VermouthProps.C01_Events',
+          'VermouthProps.C01_AttrLink'], 'driver_c01')
 
 import networkx as nx
 import vermouth
@@ -54,11 +55,14 @@ class RecMatcher(_OrigMatcher):
 vermouth.map_parser.MappingGraphMatcher = RecMatcher
 
 LOGS = []
+LOGARGS = []          # parallel to LOGS: the positional arguments of the message (copied)
 
 
 class LogHandler(logging.Handler):
     def emit(self, record):
         LOGS.append((record.levelno, getattr(record, 'type', '?'), str(getattr(record.msg, 'fmt', record.msg))))
+        args = getattr(record.msg, 'args', ())
+        LOGARGS.append(tuple(list(a) if isinstance(a, list) else a for a in args))
 
 
 _lg = logging.getLogger('vermouth')
@@ -104,6 +108,7 @@ def build(spec):
         mol.add_node(key, **attrs)
     for a, b in spec['edges']:
         mol.add_edge(a, b)
+    mol.citations.update(spec.get('cites', []))
     maps = {}
     for i, ms in enumerate(spec['mappings']):
         bf = Block(force_field=ffa)
@@ -112,9 +117,12 @@ def build(spec):
             bf.add_node(k, **attrs)
         for a, b in ms['from_edges']:
             bf.add_edge(a, b)
-        bt = Block(force_field=ffb)
+        bt = Block(force_field=ffa if ms.get('foreign_ff') else ffb)
         bt.name = ms['name']
         bt.nrexcl = ms['nrexcl']
+        bt.citations.update(ms.get('cites', []))
+        for level, entry, fmaps in ms.get('logs', []):
+            bt.log_entries[level][entry] = [dict(fm) for fm in fmaps]
         for k, attrs in ms['to_nodes']:
             bt.add_node(k, **attrs)
         for a, b in ms['to_edges']:
@@ -138,6 +146,7 @@ def run_real(spec):
     ids = {id(m.block_from): i for i, m in enumerate(mlist)}
     RECORD.clear()
     LOGS.clear()
+    LOGARGS.clear()
     try:
         out = do_mapping(mol, mappings, ffb, attribute_keep=KEEP, attribute_must=MUST, attribute_stash=STASH)
         status = 'ok'
@@ -275,6 +284,8 @@ def brute_matches(mol, bf):
 
     def node_ok(p, t):
         pa, ta = bf.nodes[p], mol.nodes[t]
+        if bf.has_edge(p, p) != mol.has_edge(t, t):      # induced: a self-loop is matched by a self-loop only
+            return False
         for k, v in pa.items():
             if k in IGNORE:
                 continue
@@ -365,6 +376,7 @@ def oracle(spec, mol, mlist, out, logs, raw):
         if not any(b in ws for ws in mlist[i].mapping.values()):
             spawned.add(k)
     info['spawned'] = len(spawned)
+    info['bead_of'], info['order'], info['places'] = bead_of, order, places
     cons = {k: set(out.nodes[k].get('mapping_weights', {})) for k in outkeys}
     inter_bonds = 0
     if not shared and not best[0]:
@@ -460,7 +472,15 @@ def check_copies(spec, mol, mlist, out, outkeys, places, groups):
     return errs, order
 
 
+ORACLE_SKIP = set()      # clauses that do not apply under the attribute tuples of the case (attribute stream only)
+
+
 def check_copy(mol, mlist, out, outkeys, places, j, pos, last_resid, n):
+    errs = _check_copy(mol, mlist, out, outkeys, places, j, pos, last_resid, n)
+    return [e for e in errs[0] if e[0] not in ORACLE_SKIP], errs[1]
+
+
+def _check_copy(mol, mlist, out, outkeys, places, j, pos, last_resid, n):
     errs = []
     i, emb = places[j]
     m = mlist[i]
@@ -501,9 +521,9 @@ def check_copy(mol, mlist, out, outkeys, places, j, pos, last_resid, n):
         # stashed resid
         old = a.get('_old_resid')
         if b in m.references and m.references[b] in emb:
-            want_old = {mol.nodes[emb[m.references[b]]]['resid']}
+            want_old = {mol.nodes[emb[m.references[b]]].get('resid')}
         else:
-            want_old = {mol.nodes[x]['resid'] for x in want_w}
+            want_old = {mol.nodes[x].get('resid') for x in want_w}
         if old not in want_old:
             errs.append(('stash_old_resid', 'particle %r: _old_resid %r, its atoms have %r' % (k, old, want_old)))
     for u, v in bt.edges:
@@ -542,6 +562,11 @@ def gen_ff(rng, feat):
                 edges.append(e)
         for i in range(nh):
             edges.append((names[rng.randrange(nheavy)], names[nheavy + i]))
+        if rng.random() < feat.get('p_selfloop', 0.0):
+            # a self-loop on an atom (block_from carries it too): semantic_feasibility then has to judge the
+            # loop itself with edge_matcher
+            n = names[rng.randrange(nheavy)]
+            edges.append((n, n))
         types.append({'resname': resname, 'names': names, 'nheavy': nheavy, 'edges': edges})
     nrexcl = rng.choice([None, 1, 1, 3])
     mappings = []
@@ -710,6 +735,8 @@ def gen_molecule(rng, types, link, nres_max):
                      'element': 'H' if n.startswith('H') else 'C'}
             atoms.append([k, attrs])
         for a, b in ty['edges']:
+            if a == b and rng.random() < 0.3:
+                continue                                # this residue lacks the self-loop of its type
             edges.append([local[a], local[b]])
         res_atoms.append((t, ty, local))
         resid += rng.choice([1, 1, 1, 2, 7])
@@ -777,7 +804,7 @@ def finding_of(clauses, spec):
 # ----------------------------------------------------------------------------
 # main loop
 # ----------------------------------------------------------------------------
-FEAT = {'p_unmapped': 0.08, 'p_empty': 0.03, 'p_spawn': 0.3, 'p_ref': 0.2, 'p_dup': 0.2, 'p_both_empty': 0.6, 'p_two': 0.35,
+FEAT = {'p_selfloop': 0.04, 'p_unmapped': 0.08, 'p_empty': 0.03, 'p_spawn': 0.3, 'p_ref': 0.2, 'p_dup': 0.2, 'p_both_empty': 0.6, 'p_two': 0.35,
         'p_nrexcl': 0.02}
 cases = []
 corpus_file = os.path.join(VERIF, 'corpus', 'c01_hard.json')
@@ -836,7 +863,9 @@ for (cid, spec, meta, status, impl, errs, info, logs, ln), sent, mo in zip(recs,
                        ('first_matched_atom_not_lowest_key', info.get('first_not_min')), ('overlap', info.get('overlap')), ('overlap_noncontributing_atom', info.get('overlap_noncontributing')), ('spawned', info.get('spawned')), ('lost_atoms', info.get('lost')),
                        ('inter_bonds', info.get('inter_bonds')), ('warn_garbage', kinds[1]), ('warn_disconnected', kinds[2]),
                        ('warn_hydrogens', kinds[4]), ('two_residue_mapping', any(m['name'] == 'PAIR' for m in spec['mappings'])),
-                       ('references', any(m['refs'] for m in spec['mappings'])), ('unexpected_log', other)):
+                       ('references', any(m['refs'] for m in spec['mappings'])), ('unexpected_log', other),
+                       ('self_loop_in_molecule', any(a == b for a, b in spec['edges'])),
+                       ('self_loop_in_block_from', any(a == b for m in spec['mappings'] for a, b in m['from_edges']))):
         if flag:
             chk.count('feature_' + name)
     fid = finding_of(errs, spec) if errs else None
@@ -871,7 +900,7 @@ def _rec_map(self, graph, node_match=None, edge_match=None):
 Mapping.map = _rec_map
 
 
-def run_with_mods(mol, mappings, to_ff, keep=KEEP):
+def run_with_mods(mol, mappings, to_ff, keep=KEEP, must=MUST, stash=STASH):
     """-> status, out, raw block matches, raw mod matches, logs, block mlist, mod mlist, called mod names"""
     coll = list(mappings[mol.force_field.name][to_ff.name].values())
     blocks = [m for m in coll if m.type == 'block']
@@ -880,9 +909,10 @@ def run_with_mods(mol, mappings, to_ff, keep=KEEP):
     mid = {id(m.block_from): i for i, m in enumerate(mods)}
     RECORD.clear()
     LOGS.clear()
+    LOGARGS.clear()
     MAPCALLS.clear()
     try:
-        out = do_mapping(mol, mappings, to_ff, attribute_keep=keep, attribute_must=MUST, attribute_stash=STASH)
+        out = do_mapping(mol, mappings, to_ff, attribute_keep=keep, attribute_must=must, attribute_stash=stash)
         status = 'ok'
     except ValueError:
         out, status = None, 'valueerror'
@@ -1155,6 +1185,478 @@ for i, (ln, im, mo) in enumerate(zip(cov_lines, cov_impl, cov_models)):
     chk.case('cover-%d' % i, ln, im, mo, [], True)
 
 # ----------------------------------------------------------------------------
+# the attribute side (lean/VermouthModel/C01_Attr.lean, op `mapx`): every attribute of every particle
+# for ANY attribute_keep / attribute_must / attribute_stash, `replace` and `modifications` of
+# modification mappings, the multiple-modification warning, removal of atomname-None particles,
+# log entries and citations carried from blocks and modifications, the force-field test of merge_molecule
+# ----------------------------------------------------------------------------
+SKIP_ATTRS = {'graph', 'mapping_weights', 'modifications', 'replace'}
+
+
+def xval(v):
+    if v is None or isinstance(v, str):
+        return v
+    if isinstance(v, bool):
+        return 'bool:%s' % v
+    if isinstance(v, int):
+        return v
+    return 'repr:' + repr(v)
+
+
+def xattrs(d, only=None):
+    return [[str(k), xval(v)] for k, v in d.items() if k not in SKIP_ATTRS and (only is None or k in only)]
+
+
+def enc_atoms_x(mol, cfgall):
+    """only the attributes attrs_from_node can read (those of the three tuples) are sent"""
+    rows = []
+    for k, a in mol.nodes(data=True):
+        rep = a.get('replace') if 'replace' in a else None
+        rows.append([k, xattrs(a, cfgall), None if rep is None else [[str(x), xval(v)] for x, v in rep.items() if x in cfgall],
+                     a.get('element', '') == 'H'])
+    return rows
+
+
+def enc_logs_block(bt, tidx):
+    return [[str(level), str(entry), [[[str(n), tidx[x]] for n, x in fm.items()] for fm in fmaps]]
+            for level, entries in bt.log_entries.items() for entry, fmaps in entries.items()]
+
+
+def enc_block_maps_x(mlist, raw, to_ff):
+    maps = []
+    for m in mlist:
+        fidx = {k: i for i, k in enumerate(m.block_from.nodes)}
+        tidx = {k: i for i, k in enumerate(m.block_to.nodes)}
+        nodes = [[tidx[k], xattrs(a), str(k)] for k, a in m.block_to.nodes(data=True)]
+        edges = [[tidx[a], tidx[b]] for a, b in m.block_to.edges]
+        refs = [[tidx[t], fidx.get(f, -1)] for t, f in m.references.items()]
+        maps.append([nodes, edges, enc_inters(m.block_to, tidx), m.block_to.nrexcl,
+                     m.block_to.force_field == to_ff, enc_logs_block(m.block_to, tidx),
+                     sorted(str(c) for c in m.block_to.citations), enc_weights(m, fidx, tidx), refs])
+    return maps, enc_raw(mlist, raw)
+
+
+def enc_mod_maps_x(mlist, raw):
+    mods = []
+    for m in mlist:
+        fidx = {k: i for i, k in enumerate(m.block_from.nodes)}
+        tidx = {k: i for i, k in enumerate(m.block_to.nodes)}
+        nodes = [[tidx[k], xattrs(a), bool(a.get('PTM_atom', False)),
+                  [[str(x), xval(v)] for x, v in a.get('replace', {}).items()]]
+                 for k, a in m.block_to.nodes(data=True)]
+        edges = [[tidx[a], tidx[b]] for a, b in m.block_to.edges]
+        refs = [[tidx[t], fidx.get(f, -1)] for t, f in m.references.items()]
+        logs = [[str(level), str(entry)] for level, entries in m.block_to.log_entries.items() for entry in entries]
+        mods.append([nodes, edges, enc_inters(m.block_to, tidx), enc_weights(m, fidx, tidx), refs, logs,
+                     sorted(str(c) for c in m.block_to.citations)])
+    return mods, enc_raw(mlist, raw)
+
+
+def proto_mapx(cfg, mol, blocks, rawb, mods, rawm, to_ff):
+    keep, must, stash = cfg
+    cfgall = set(keep) | set(must) | set(stash)
+    maps_enc, rawb_enc = enc_block_maps_x(blocks, rawb, to_ff)
+    mods_enc, rawm_enc = enc_mod_maps_x(mods, rawm)
+    return line('mapx', [list(keep), list(must), list(stash)], enc_atoms_x(mol, cfgall), [list(e) for e in mol.edges],
+                sorted(str(c) for c in mol.citations), maps_enc, rawb_enc, mods_enc, rawm_enc)
+
+
+def garbage_lists(logs, logargs):
+    return [[str(x) for x in args[0]] for (lvl, typ, msg), args in zip(logs, logargs) if msg.startswith('The attributes')]
+
+
+def canon_x(status, out, logs, logargs, mods):
+    if status != 'ok':
+        return 'error ' + status
+    mid = {id(m.block_to): i for i, m in enumerate(mods)}
+    parts = []
+    for k in out.nodes:
+        a = out.nodes[k]
+        g = a.get('graph')
+        w = a.get('mapping_weights', {})
+        parts.append([k, sorted(xattrs(a)), sorted(g.nodes) if g is not None else [],
+                      [[m, frac(w[m])] for m in sorted(w)],
+                      [mid.get(id(x), 999) for x in a.get('modifications', []) or []]])
+    edges = sorted(sorted(e) for e in out.edges)
+    inters = []
+    for typ in sorted(out.interactions):
+        for it in out.interactions[typ]:
+            inters.append([typ, list(it.atoms), ' '.join(str(p) for p in it.parameters)])
+    kinds, _ = warn_kinds(logs)
+    nmulti = sum(1 for _, _, msg in logs if msg.startswith('Interaction set by multiple'))
+    warn = [bool(kinds[0]), garbage_lists(logs, logargs), kinds[2], bool(kinds[3]), bool(kinds[4]), nmulti]
+    return 'ok ' + ' '.join(enc(x) for x in (parts, edges, inters, warn))
+
+
+def canon_x_tail(out, npre):
+    """removed keys (the particles are numbered 1..npre before the removal), log entries, citations"""
+    removed = sorted(set(range(1, npre + 1)) - set(out.nodes)) if npre is not None else []
+    logs = sorted([str(level), str(entry), [sorted([str(n), o] for n, o in fm.items()) for fm in fmaps]]
+                  for level, entries in out.log_entries.items() for entry, fmaps in entries.items())
+    return ' ' + ' '.join(enc(x) for x in (removed, logs, sorted(str(c) for c in out.citations)))
+
+
+def view_atom(a, cfgall):
+    """independent reading of attrs_from_node"""
+    d = dict(a)
+    if 'replace' in d:
+        d.update(d['replace'])
+    return {k: v for k, v in d.items() if k in cfgall}
+
+
+def attr_oracle(cfg, mol, mlist, out, logs, logargs, info):
+    """the attribute clauses of the property on the real result: for every particle with a weight table the
+    kept attributes come from its reference atom / one of its constituents (the common value when they agree),
+    must-attributes are present when some source has them and never overwrite the block's, stashed values are
+    exact, and the 'garbage' warning is raised exactly for the particles whose constituents disagree"""
+    keep, must, stash = cfg
+    cfgall = set(keep) | set(must) | set(stash)
+    errs = []
+    bead_of, order, places = info.get('bead_of'), info.get('order'), info.get('places')
+    if bead_of is None or 'atomname' in keep or any(('_old_' + s) in cfgall for s in stash):
+        return errs, {}
+    want_garbage = []
+    for k in out.nodes:
+        a = out.nodes[k]
+        if 'mapping_weights' not in a or k not in bead_of:
+            continue
+        n, b = bead_of[k]
+        i, emb = places[order[n]]
+        m = mlist[i]
+        blk = dict(m.block_to.nodes[b])
+        blk.setdefault('resid', 1)                     # merge_molecule always writes both
+        blk.setdefault('charge_group', 1)
+        cons = list(a['mapping_weights'])
+        ref = emb.get(m.references[b]) if b in m.references else None
+        srcs = [view_atom(mol.nodes[ref], cfgall)] if ref is not None else [view_atom(mol.nodes[x], cfgall) for x in cons]
+        bad = []
+        for attr in list(dict.fromkeys(keep + must + stash)):
+            vals = [s_[attr] for s_ in srcs if attr in s_]
+            if ref is None and any(v != vals[0] for v in vals[1:]):
+                bad.append(attr)
+            if attr in keep or attr not in blk:
+                if vals:
+                    if attr not in a or not any(a[attr] == v and type(a[attr]) == type(v) for v in vals):
+                        errs.append(('keep_attr_from_constituents' if attr in keep else 'must_attr_present',
+                                     'particle %r: %s = %r, its %s carry %r'
+                                     % (k, attr, a.get(attr, '<absent>'), 'reference atom' if ref is not None else 'constituents', vals)))
+                    elif a[attr] != vals[0]:
+                        errs.append(('keep_attr_from_constituents', 'particle %r: %s = %r, the first source has %r'
+                                     % (k, attr, a[attr], vals[0])))
+                elif attr in blk and attr not in ('resid', 'charge_group') and a.get(attr, '<absent>') != blk[attr]:
+                    errs.append(('keep_attr_from_constituents', 'particle %r: %s = %r, no source carries it and the block '
+                                 'says %r' % (k, attr, a.get(attr, '<absent>'), blk[attr])))
+            elif attr not in ('resid', 'charge_group') and a.get(attr, '<absent>') != blk[attr]:
+                errs.append(('must_attr_present', 'particle %r: %s = %r overwrote the value %r of the block'
+                             % (k, attr, a.get(attr, '<absent>'), blk[attr])))
+            if attr in stash:
+                old = a.get('_old_' + attr, '<absent>')
+                if vals and old != vals[0]:
+                    errs.append(('stash_value_exact', 'particle %r: _old_%s = %r, expected %r' % (k, attr, old, vals[0])))
+                if not vals and ('_old_' + attr) in a and ('_old_' + attr) not in blk:
+                    errs.append(('stash_value_exact', 'particle %r: _old_%s = %r although no source has %s'
+                                 % (k, attr, old, attr)))
+        if bad:
+            want_garbage.append(sorted(bad))
+    got = sorted(sorted(x) for x in garbage_lists(logs, logargs))
+    if sorted(want_garbage) != got:
+        errs.append(('garbage_warning_iff', 'garbage warnings for %r, constituents disagree for %r' % (got, sorted(want_garbage))))
+    return errs, {'garbage': len(want_garbage)}
+
+
+ATTR_POOL = ['chain', 'resname', 'resid', 'secstruct', 'mark']
+
+
+def gen_cfg(rng):
+    r = rng.random()
+    if r < 0.3:
+        return (('chain',), ('resname',), ('resid',))
+    if r < 0.4:
+        return (('cgsecstruct', 'chain', 'secstruct'), ('resname',), ('resid',))
+    keep = tuple(a for a in ATTR_POOL + ['atomname'] if rng.random() < 0.3)
+    must = tuple(a for a in ATTR_POOL if rng.random() < 0.3)
+    stash = tuple(a for a in ATTR_POOL if rng.random() < 0.3)
+    if rng.random() < 0.5:
+        keep, must, stash = tuple(rng.sample(keep, len(keep))), tuple(rng.sample(must, len(must))), tuple(rng.sample(stash, len(stash)))
+    return keep, must, stash
+
+
+def gen_attr_case(rng):
+    feat = dict(FEAT, p_ref=0.45, p_unmapped=0.04, p_dup=0.1)
+    spec, meta = gen_case(rng, 6, feat)
+    cfg = gen_cfg(rng)
+    tags = set()
+    free_resname = rng.random() < 0.6          # block_from without resname: atoms may then differ in resname
+    for ms in spec['mappings']:
+        if free_resname:
+            for n, a in ms['from_nodes']:
+                a.pop('resname', None)
+        for b, a in ms['to_nodes']:
+            if rng.random() < 0.4:
+                a.pop('resname', None)
+            elif rng.random() < 0.1:
+                a['resname'] = None
+            if rng.random() < 0.15:
+                a['chain'] = rng.choice(['Q', None])
+            if rng.random() < 0.15:
+                a['secstruct'] = 'T'
+            if rng.random() < 0.1:
+                a['mark'] = rng.randint(0, 2)
+            if rng.random() < 0.05:
+                a['_old_resid'] = 77
+        if rng.random() < 0.04:
+            ms['foreign_ff'] = True
+            tags.add('foreign_force_field_block')
+        if rng.random() < 0.25:
+            tn = [b for b, _ in ms['to_nodes']]
+            ms['logs'] = [[rng.choice(['warning', 'info']), 'entry %d for {%s}' % (rng.randint(1, 2), tn[0]),
+                           [{tn[0]: tn[0]}] if rng.random() < 0.5 else []]
+                          for _ in range(rng.randint(1, 2))]
+            tags.add('block_log_entries')
+        if rng.random() < 0.3:
+            ms['cites'] = rng.sample(['paperA', 'paperB', 'paperC'], rng.randint(1, 2))
+    if rng.random() < 0.3:
+        spec['cites'] = rng.sample(['paperA', 'molpaper'], rng.randint(1, 2))
+    sec = rng.random() < 0.5
+    for k, a in spec['atoms']:
+        r = rng.random()
+        if r < 0.08:
+            del a['chain']
+            tags.add('atom_without_chain')
+        elif r < 0.14:
+            a['chain'] = None
+            tags.add('chain_None')
+        elif r < 0.22:
+            a['chain'] = rng.choice('AXY')
+            tags.add('chain_perturbed')
+        if free_resname and rng.random() < 0.08:
+            a['resname'] = rng.choice(['RA', 'ZZ', None])
+            tags.add('resname_perturbed')
+        if rng.random() < 0.03:
+            del a['resid']
+            tags.add('atom_without_resid')
+        if sec and rng.random() < 0.7:
+            a['secstruct'] = rng.choice(['H', 'H', 'C', None])
+        if rng.random() < 0.3:
+            a['mark'] = rng.randint(0, 2)
+        if rng.random() < 0.07:
+            a['replace'] = rng.choice([{'chain': 'Z'}, {'resname': 'QQ'}, {'mark': 9}, {'atomname': None},
+                                       {'secstruct': 'E', 'newkey': 1}, {}])
+            tags.add('atom_with_replace')
+    if 'atomname' in cfg[0] and rng.random() < 0.6:
+        # a kept atomname that is None after the atom's own `replace`: the particle is removed at the end
+        for k, a in rng.sample(spec['atoms'], min(len(spec['atoms']), rng.randint(1, 2))):
+            a['replace'] = {'atomname': None}
+        tags.add('atom_with_replace')
+    return spec, cfg, meta, tags
+
+
+def run_real_x(spec, cfg):
+    mol, mappings, ffb = build(spec)
+    status, out, rawb, rawm, logs, blocks, mods, called = run_with_mods(mol, mappings, ffb, keep=cfg[0], must=cfg[1], stash=cfg[2])
+    return status, out, rawb, rawm, logs, list(LOGARGS), blocks, mods, mol, ffb
+
+
+arng = chk.rng('attributes')
+ax_lines, ax_recs = [], []
+acorpus = []
+acorpus_file = os.path.join(VERIF, 'corpus', 'c01_attr.json')
+if os.path.exists(acorpus_file):
+    for i, c in enumerate(json.load(open(acorpus_file))['cases']):
+        acorpus.append(('acorpus-%d-%s' % (i, c.get('name', '')), c['spec'], tuple(tuple(x) for x in c['cfg']), set()))
+for i in range(6000 if chk.thorough else 350):
+    spec, cfg, meta, tags = gen_attr_case(arng)
+    acorpus.append(('attr-%d' % i, spec, cfg, tags))
+for cid, spec, cfg, tags in acorpus:
+    status, out, rawb, rawm, logs, logargs, blocks, mods, mol, ffb = run_real_x(spec, cfg)
+    ln = proto_mapx(cfg, mol, blocks, rawb, mods, rawm, ffb)
+    errs, info, ainfo = [], {}, {}
+    impl = canon_x(status, out, logs, logargs, mods)
+    if status == 'ok':
+        npre = sum(len(blocks[i].block_to) for i, _ in rawb)
+        impl += canon_x_tail(out, npre)
+        removed = npre - len(out)
+        if removed:
+            tags.add('particles_removed_atomname_None')
+            # what can be said without the particle/placement correspondence
+            if any(out.nodes[k].get('atomname', '') is None and 'mapping_weights' in out.nodes[k] for k in out.nodes):
+                errs.append(('remove_none', 'a particle whose atomname is None survived'))
+            if any(x not in out for t, l in out.interactions.items() for it in l for x in it.atoms):
+                errs.append(('remove_none', 'an interaction mentions a removed particle'))
+        else:
+            # the clauses of the block oracle that assume martinize2's tuples are replaced by attr_oracle
+            ORACLE_SKIP.clear()
+            ORACLE_SKIP.add('stash_old_resid')
+            if 'resid' in cfg[0]:
+                ORACLE_SKIP.add('resid')
+            if 'atomname' not in cfg[0]:
+                errs, info = oracle(spec, mol, blocks, out, logs, rawb)
+                if not errs:
+                    aerrs, ainfo = attr_oracle(cfg, mol, blocks, out, logs, logargs, info)
+                    errs = errs + aerrs
+            else:
+                chk.count('attr_block_oracle_skipped_atomname_kept')
+            ORACLE_SKIP.clear()
+    for t in tags:
+        chk.count('attr_feature_' + t)
+    chk.count('attr_status=' + status)
+    chk.count('attr_cfg_' + ('martinize2' if cfg == (KEEP, MUST, STASH) else 'other'))
+    ng = len(garbage_lists(logs, logargs))
+    if ng:
+        chk.count('attr_feature_garbage_warning')
+    if any(m['refs'] for m in spec['mappings']):
+        chk.count('attr_feature_references')
+    many = len(rawb) > 45
+    ax_lines.append(None if many else ln)
+    ax_recs.append((cid, ln, impl, errs, status == 'ok' and (ng > 0 or bool(tags))))
+asked = [l for l in ax_lines if l is not None]
+answers = iter(chk.drv.ask(asked) if chk.lean_ok else [None] * len(asked))
+for (cid, ln, impl, errs, nontriv), sent in zip(ax_recs, ax_lines):
+    mo = None if sent is None else next(answers)
+    chk.case(cid, ln, impl, mo, ['%s: %s' % e for e in errs], nontriv)
+
+# ----------------------------------------------------------------------------
+# modification mappings with `replace` dictionaries (non-core attributes, renamed / None atomname, resid,
+# charge_group), repeated interactions inside one modification and the same interaction set by two
+# modifications, log entries and citations of the modification, any attribute tuples: real do_mapping vs `mapx`
+# ----------------------------------------------------------------------------
+REPLACES = [{'atype': 'Q5'}, {'atype': 'Q5', 'mark': 3}, {'atomname': 'B9'}, {'atomname': None}, {'charge_group': 5},
+            {'resid': 9}, {'mark': 1, 'atomname': 'B1'}, {}]
+
+
+def build_rich_mod_case(rng):
+    mol, mappings, ffb, meta = build_mod_case(rng)
+    tags = set()
+    coll = mappings['c01src']['c01tgt']
+    mods = [m for m in coll.values() if m.type == 'modification']
+    for m in mods:
+        bt = m.block_to
+        hosts = [n for n, a in bt.nodes(data=True) if not a.get('PTM_atom')]
+        news = [n for n, a in bt.nodes(data=True) if a.get('PTM_atom')]
+        for h in hosts:
+            if rng.random() < 0.55:
+                rep = dict(rng.choice(REPLACES))
+                bt.nodes[h]['replace'] = rep
+                tags.add('replace_' + ('atomname_None' if rep.get('atomname', 0) is None else
+                                       'atomname' if 'atomname' in rep else
+                                       'resid_or_cg' if ('resid' in rep or 'charge_group' in rep) else 'other'))
+        if hosts and rng.random() < 0.15:
+            # a second node of the modification with the atom name of the first host: both are laid over the
+            # same particle, which must list the modification once
+            h = hosts[0]
+            anchors = [f for f, ws in m.mapping.items() if h in ws]
+            if anchors:
+                bt.add_node(h + 'x', atomname=bt.nodes[h]['atomname'], PTM_atom=False, resname='X')
+                m.mapping[anchors[0]][h + 'x'] = 1
+                tags.add('two_nodes_of_a_modification_on_one_particle')
+        for q in news:
+            if rng.random() < 0.2:
+                bt.nodes[q]['replace'] = {'atype': 'P9'}
+            if rng.random() < 0.2:
+                bt.nodes[q]['resid'] = rng.choice([1, 4])
+        r = rng.random()
+        if r < 0.45 and hosts:
+            atoms = [hosts[0]] + news[:1]
+            typ = 'bonds' if len(atoms) == 2 else 'position_restraints'
+            style = rng.choice(['two_versions', 'same_version', 'single'])
+            if style == 'two_versions':
+                bt.add_interaction(typ, atoms, ['1', '0.1'], meta={'version': 1})
+                bt.add_interaction(typ, atoms, ['1', '0.2'], meta={'version': 2})
+                tags.add('interaction_twice_in_one_modification')
+            elif style == 'same_version':
+                bt.add_interaction(typ, atoms, ['1', '0.3'])
+                bt.add_interaction(typ, atoms, ['1', '0.4'])
+                tags.add('interaction_twice_in_one_modification')
+            else:
+                bt.add_interaction('position_restraints', [hosts[0]], ['1', '%d' % rng.randint(100, 102)])
+                tags.add('host_interaction')
+        if rng.random() < 0.3:
+            bt.log_entries[rng.choice(['warning', 'info'])]['modification %s applied' % '+'.join(m.names)] = []
+            tags.add('modification_log_entry')
+        if rng.random() < 0.3:
+            bt.citations.update(rng.sample(['modpaper', 'paperA'], rng.randint(1, 2)))
+    for blk in (m for m in coll.values() if m.type == 'block'):
+        if rng.random() < 0.3:
+            blk.block_to.log_entries['info']['block entry'] = []
+        if rng.random() < 0.3:
+            blk.block_to.add_interaction('position_restraints', ['B1'], ['1', '1000'])
+        if rng.random() < 0.5:
+            blk.block_to.nodes['B1']['mark'] = 0      # an attribute a `replace` dictionary has to OVERWRITE
+    for n in mol.nodes:
+        a = mol.nodes[n]
+        r = rng.random()
+        if r < 0.08:
+            a['chain'] = rng.choice(['B', None])
+            tags.add('chain_perturbed')
+        elif r < 0.12:
+            del a['chain']
+        if rng.random() < 0.05:
+            a['replace'] = rng.choice([{'chain': 'Z'}, {'resname': 'QQ'}])
+    cfg = gen_cfg(rng) if rng.random() < 0.5 else (KEEP, MUST, STASH)
+    return mol, mappings, ffb, meta, cfg, tags
+
+
+def rich_oracle(mol, out, logs, mods, rawm, cfg=((), (), ())):
+    """what holds whatever the `replace` dictionaries do"""
+    errs = []
+    types = [(lvl, typ) for lvl, typ, _ in logs]
+    if any(out.nodes[k].get('atomname', '') is None and 'mapping_weights' in out.nodes[k] for k in out.nodes):
+        errs.append(('remove_none', 'a particle whose atomname is None survived'))
+    if any(x not in out for t, l in out.interactions.items() for it in l for x in it.atoms):
+        errs.append(('remove_none', 'an interaction mentions a removed particle'))
+    cons = {n: dict(out.nodes[n].get('mapping_weights', {})) for n in out.nodes}
+    contributing = set().union(*[set(c) for c in cons.values()]) if cons else set()
+    removed_any = any(a.get('replace', {}).get('atomname', 0) is None for m in mods for _, a in m.block_to.nodes(data=True))
+    lost = [a for a in mol.nodes if a not in contributing and mol.nodes[a].get('element', '') != 'H']
+    if lost and not removed_any and (logging.WARNING, 'unmapped-atom') not in types:
+        errs.append(('no_silent_loss', 'atoms %r contribute to no particle, no unmapped-atom warning' % lost[:5]))
+    for n in out.nodes:
+        ml = out.nodes[n].get('modifications')
+        if ml is not None and len({id(x) for x in ml}) != len(ml):
+            errs.append(('modifications_recorded', 'particle %r lists a modification twice' % (n,)))
+        # a `replace` value for an attribute nothing else writes: when exactly one node of the particle's
+        # modifications (same atom name, not a new particle) declares it, the particle carries it
+        for attr in [x for x in ('atype', 'mark') if x not in cfg[0] + cfg[1] + cfg[2]]:
+            cands = [a['replace'][attr] for x in (ml or []) for _, a in x.nodes(data=True)
+                     if not a.get('PTM_atom') and attr in a.get('replace', {})
+                     and a.get('atomname') == out.nodes[n].get('atomname')]
+            renamed = any('atomname' in a.get('replace', {}) for x in (ml or []) for _, a in x.nodes(data=True))
+            if len(cands) == 1 and not renamed and out.nodes[n].get(attr, '<absent>') != cands[0]:
+                errs.append(('replace_applied', 'particle %r: %s = %r, its modification declares replace %r'
+                             % (n, attr, out.nodes[n].get(attr, '<absent>'), cands[0])))
+    return errs
+
+
+xrng = chk.rng('rich-modification')
+mx_lines, mx_recs = [], []
+for i in range(3000 if chk.thorough else 250):
+    mol, mappings, ffb, meta, cfg, tags = build_rich_mod_case(xrng)
+    status, out, rawb, rawm, logs, blocks, mods, called = run_with_mods(mol, mappings, ffb, keep=cfg[0], must=cfg[1], stash=cfg[2])
+    logargs = list(LOGARGS)
+    ln = proto_mapx(cfg, mol, blocks, rawb, mods, rawm, ffb)
+    impl = canon_x(status, out, logs, logargs, mods)
+    errs = []
+    if status == 'ok':
+        npre = sum(len(blocks[j].block_to) for j, _ in rawb) + sum(
+            sum(1 for _, a in mods[j].block_to.nodes(data=True) if a.get('PTM_atom')) for j, _ in rawm)
+        impl += canon_x_tail(out, npre)
+        if npre != len(out):
+            tags.add('particles_removed')
+        errs = rich_oracle(mol, out, logs, mods, rawm, cfg)
+        if any(msg.startswith('Interaction set by multiple') for _, _, msg in logs):
+            tags.add('warning_multiple_modification_mappings')
+        if any(len(out.nodes[k].get('modifications', []) or []) >= 2 for k in out.nodes):
+            tags.add('particle_with_two_modifications')
+    for t in tags:
+        chk.count('modx_feature_' + t)
+    chk.count('modx_status=' + status)
+    mx_lines.append(ln)
+    mx_recs.append(('modx-%d' % i, impl, errs, len(rawm)))
+mx_models = chk.drv.ask(mx_lines) if chk.lean_ok else [None] * len(mx_lines)
+for (cid, impl, errs, nm), ln, mo in zip(mx_recs, mx_lines, mx_models):
+    chk.case(cid, ln, impl, mo, ['%s: %s' % e for e in errs], nm >= 1)
+
+# ----------------------------------------------------------------------------
 # thorough: charmm -> martini3001 on the tier-0 / tier-1 test structures (oracle only)
 # ----------------------------------------------------------------------------
 def real_ff_cases():
@@ -1180,7 +1682,9 @@ def real_ff_cases():
         for mi, mol in enumerate(system.molecules):
             status, out, rawb, rawm, logs, blocks, mods, called = run_with_mods(
                 mol, maps, ffs['martini3001'], keep=('cgsecstruct', 'chain', 'secstruct'))
+            logargs = list(LOGARGS)
             ln = None
+            lnx = implx = None
             if len(rawb) <= 45:
                 used_b = sorted({i for i, _ in rawb})
                 used_m = sorted({i for i, _ in rawm})
@@ -1189,8 +1693,18 @@ def real_ff_cases():
                 maps_enc, rawb_enc = enc_block_maps(bsel, [(used_b.index(i), mt) for i, mt in rawb])
                 mods_enc, rawm_enc = enc_mod_maps(msel, [(used_m.index(i), mt) for i, mt in rawm])
                 ln = line('mapmod', enc_atoms(mol), [list(e) for e in mol.edges], maps_enc, rawb_enc, mods_enc, rawm_enc)
+                # the same run through the attribute model: every attribute of every particle
+                cfgx = (('cgsecstruct', 'chain', 'secstruct'), MUST, STASH)
+                rb = [(used_b.index(i), mt) for i, mt in rawb]
+                rm = [(used_m.index(i), mt) for i, mt in rawm]
+                lnx = proto_mapx(cfgx, mol, bsel, rb, msel, rm, ffs['martini3001'])
+                implx = canon_x(status, out, logs, logargs, msel)
+                if status == 'ok':
+                    npre = sum(len(bsel[i].block_to) for i, _ in rb) + sum(
+                        sum(1 for _, a in msel[i].block_to.nodes(data=True) if a.get('PTM_atom')) for i, _ in rm)
+                    implx += canon_x_tail(out, npre)
             yield ('%s-%s-mol%d' % (path.parent.parent.name, path.parent.name, mi), mol, out, rawb, logs, ln,
-                   canon_real(status, out, logs), sorted(set(called)), mods, rawm)
+                   canon_real(status, out, logs), sorted(set(called)), mods, rawm, lnx, implx)
 
 
 def real_ff_oracle(mol, out, raw, logs):
@@ -1240,7 +1754,11 @@ def real_ff_oracle(mol, out, raw, logs):
 
 if chk.thorough or os.environ.get('C01_REALFF'):
     rl, rr = [], []
-    for cid, mol, out, raw, logs, ln, impl, called, mods, rawm in real_ff_cases():
+    rlx, rrx = [], []
+    for cid, mol, out, raw, logs, ln, impl, called, mods, rawm, lnx, implx in real_ff_cases():
+        if lnx is not None:
+            rlx.append(lnx)
+            rrx.append((cid, implx, len(rawm)))
         errs, inter = real_ff_oracle(mol, out, raw, logs)
         errs += ['%s: %s' % e for e in mod_oracle(mol, out, logs, mods, rawm)]
         chk.count('real_ff_molecules')
@@ -1256,5 +1774,9 @@ if chk.thorough or os.environ.get('C01_REALFF'):
     for (cid, impl, nm), ln, mo in zip(rr, rl, rmodels):
         chk.count('real_ff_model_compared')
         chk.case('realff-model-' + cid, ln, impl, mo, [], nm >= 1)
+    rxmodels = chk.drv.ask(rlx) if chk.lean_ok else [None] * len(rlx)
+    for (cid, impl, nm), ln, mo in zip(rrx, rlx, rxmodels):
+        chk.count('real_ff_attribute_model_compared')
+        chk.case('realff-attr-model-' + cid, ln, impl, mo, [], True)
 
 chk.finish()
